@@ -642,6 +642,10 @@ func (r *renderer) bracketList(parts []string) string {
 	if r.l.Breaks && !r.noBreak && r.l.coin() {
 		ind := r.contIndent(2)
 		s := open + r.l.eol()
+		// items on lines of their own need no comma (items are separated by blanks or commas)
+		if r.l.OptComma && r.l.coin() {
+			sep = ""
+		}
 		for i, p := range parts {
 			s += ind + p
 			if i+1 < len(parts) {
